@@ -254,6 +254,7 @@ ERRFUNS = {
     "bad_delegate_error": "badDelegate",
     "bad_delegate_error2": "badDelegate2",
     "delegation_recursion_error": "recursion",
+    "delegation_recursion_error2": "recursion",
 }
 
 
@@ -283,7 +284,7 @@ class CFunReader:
         elif ctype == "has_traits_object":
             self.kind[v] = "O"
         elif ctype == "int":
-            if v not in ("i", "result"):
+            if v not in ("i", "result", "instance"):
                 raise Shape("%s: unexpected int variable %s" % (self.fname, v))
             self.special[v] = v
             return
@@ -293,8 +294,8 @@ class CFunReader:
         else:  # PyObject *
             if param and v == "name":
                 self.kind[v] = "S"
-            elif param and v == "value":
-                self.special[v] = "value"
+            elif param and v in ("value", "args"):
+                self.special[v] = v
                 return
             elif param:
                 raise Shape("%s: unexpected PyObject parameter %s" % (self.fname, v))
@@ -388,12 +389,41 @@ class CFunReader:
                     names = {m2.group(3), m3.group(3), m4.group(3)}
                     if len(objs) == 1 and len(dsts) == 1 and len(names) == 1:
                         return ".traitLookupFails %d %d %d" % (O(objs.pop()), S(names.pop()), T(dsts.pop())), False
+        if isinstance(c, tuple) and c[0] == "or" and len(c[1]) == 2 and all(isinstance(x, str) for x in c[1]) \
+                and re.match(r"^instance>=-?\d+$", c[1][0]):
+            (a, na), (b, nb) = self.cond(c[1][0]), self.cond(c[1][1])
+            if not na and not nb:
+                return ".or (%s) (%s)" % (a, b), False
+        if isinstance(c, tuple) and c[0] == "and" and len(c[1]) == 3:
+            a, b, d = c[1]
+            if isinstance(a, tuple) and a[0] == "or" and len(a[1]) == 2 and all(isinstance(x, str) for x in a[1]) \
+                    and isinstance(b, str) and isinstance(d, str):
+                m1 = re.match(r"^%s->itrait_dict==NULL$" % ID, a[1][0])
+                m2 = re.match(r"^\(%s=dict_getitem\(%s->itrait_dict,%s\)\)==NULL$" % (ID, ID, ID), a[1][1])
+                m3 = re.match(r"^\(%s=dict_getitem\(%s->ctrait_dict,%s\)\)==NULL$" % (ID, ID, ID), b)
+                m4 = re.match(r"^\(%s=get_prefix_trait\(%s,%s,0\)\)==NULL$" % (ID, ID, ID), d)
+                if m1 and m2 and m3 and m4:
+                    objs = {m1.group(1), m2.group(2), m3.group(2), m4.group(2)}
+                    dsts = {m2.group(1), m3.group(1), m4.group(1)}
+                    names = {m2.group(3), m3.group(3)}
+                    if len(objs) == 1 and len(dsts) == 1 and len(names) == 1:
+                        return ".traitLookupFails2 %d %d %d %d" % (O(objs.pop()), S(names.pop()), S(m4.group(3)),
+                                                                   T(dsts.pop())), False
         if isinstance(c, str):
+            m = re.match(r"^instance>=(-?\d+)$", c)
+            if m and self.special.get("instance"):
+                return ".instanceGe (%s)" % m.group(1), False
+            if c == "dict!=NULL" and "dict" in self.alias:
+                return ".dictNotNull %d" % O(self.alias["dict"]), False
             m = re.match(r"^%s==NULL$" % ID, c)
             if m:
                 v = m.group(1)
                 if self.special.get(v) == "temp":
                     return ".tempNull", False
+                if self.kind.get(v) == "T":
+                    return ".traitNull %d" % T(v), False
+                if self.kind.get(v) == "S":
+                    return ".nameNull %d" % S(v), False
                 return ".objNull %d" % O(v), False
             m = re.match(r"^!PyUnicode_Check\(%s\)$" % ID, c)
             if m:
@@ -451,6 +481,19 @@ class CFunReader:
             return ".callGetattro %d %d" % (O(m.group(2)), S(m.group(3)))
         if text == "Py_LeaveRecursiveCall()":
             return ".leaveRecursive"
+        if text == "break":
+            return ".brk"
+        if text == "fatal_trait_error()":
+            return ".raise .fatalTrait"
+        m = re.match(r"^%s=get_trait\(%s,%s,instance\)$" % (ID, ID, ID), text)
+        if m:
+            return ".getTrait %d %d %d" % (T(m.group(1)), O(m.group(2)), S(m.group(3)))
+        m = re.match(r"^%s=NULL$" % ID, text)
+        if m and self.kind.get(m.group(1)) == "O":
+            return ".objSetNull %d" % O(m.group(1))
+        m = re.match(r"^%s=PyDict_GetItem\(dict,%s->delegate_name\)$" % (ID, ID), text)
+        if m and "dict" in self.alias:
+            return ".dictGet %d %d %d" % (O(m.group(1)), O(self.alias["dict"]), T(m.group(2)))
         m = re.match(r"^result=%s->setattr\(%s,%s,%s,%s,value\)$" % (ID, ID, ID, ID, ID), text)
         if m:
             return ".setattr %d %d %d %d %d" % (T(m.group(1)), T(m.group(2)), T(m.group(3)), O(m.group(4)), S(m.group(5)))
@@ -498,6 +541,8 @@ class CFunReader:
             return ".retErr .pending"
         if text == "fatal_trait_error()":
             return ".retErr .fatalTrait"
+        if self.kind.get(text) == "T":
+            return ".retTrait %d" % self.reg(text)
         m = re.match(r"^(\w+)\(%s,%s\)$" % (ID, ID), text)
         if m and m.group(1) in ERRFUNS:
             if (self.reg(self.use(m.group(2), "O")), self.reg(self.use(m.group(3), "S"))) != (0, 0):
@@ -535,6 +580,10 @@ class CFunReader:
             return "(.retResult)"
         if k == "block":
             return self.seq(nd[1])
+        if k == "if" and norm(nd[1]) == '!PyArg_ParseTuple(args,"Oi",&name,&instance)' \
+                and self.special.get("args") and nd[3] is None and self.node(nd[2]) == "(.retErr .pending)":
+            self.use("name", "S")
+            return None
         if k == "if":
             c, neg = self.cond(nd[1])
             a = self.node(nd[2]) or ".skip"
@@ -543,6 +592,8 @@ class CFunReader:
                 a, b = b, a
             return "(.ite (%s) %s %s)" % (c, a, b)
         raise Shape("%s: unexpected %s" % (self.fname, k))
+
+    post = ".skip"
 
     def translate(self):
         nodes = self.strip_decls(self.nodes, True)
@@ -561,12 +612,14 @@ class CFunReader:
             pre = self.seq(nodes)
             loop = "none"
         else:
-            if fors != [len(nodes) - 1]:
-                raise Shape("%s: the loop is not the last statement" % self.fname)
-            if nodes[-1][1] != "i=0;;":
-                raise Shape("%s: loop header %r" % (self.fname, nodes[-1][1]))
-            pre = self.seq(nodes[:-1])
-            loop = "(some %s)" % (self.node(nodes[-1][2]) or ".skip")
+            if len(fors) != 1:
+                raise Shape("%s: more than one loop" % self.fname)
+            fi = fors[0]
+            if nodes[fi][1] != "i=0;;":
+                raise Shape("%s: loop header %r" % (self.fname, nodes[fi][1]))
+            pre = self.seq(nodes[:fi])
+            loop = "(some %s)" % (self.node(nodes[fi][2]) or ".skip")
+            self.post = self.seq(nodes[fi + 1:])
         if getattr(self, "dict_assigned", 0) > 1:
             raise Shape("%s: dict assigned more than once" % self.fname)
         for v, kd in self.kind.items():
@@ -696,8 +749,10 @@ def read_c(src):
     sp, sb = c_function(src, "setattr_delegate")
     s = CFunReader("setattr_delegate", sp, sb)
     spre, sloop = s.translate()
-    # the dispatch tables put them in the `delegate` slot
-    return dict(handlers=handlers, bodies=bodies, clamp=(clamp_hi, clamp_to), parse_args=parse_args,
+    bp, bb = c_function(src, "_has_traits_trait")
+    bt = CFunReader("_has_traits_trait", bp, bb)
+    bpre, bloop = bt.translate()
+    return dict(base=(bpre, bloop, bt.registers(), bt.post), handlers=handlers, bodies=bodies, clamp=(clamp_hi, clamp_to), parse_args=parse_args,
                 get=(gpre, gloop, g.registers()), set=(spre, sloop, s.registers()))
 
 
@@ -746,6 +801,15 @@ class PyStr:
             return "(.var %d)" % self.var(e.id)
         if isinstance(e, ast.Constant) and isinstance(e.value, str):
             return "(.lit %s)" % chars(e.value)
+        if isinstance(e, ast.Call) and un(e.func) == "self._trait_delegate_name" and len(e.args) == 2 and not e.keywords:
+            return "(.delegateName %s %s)" % (self.expr(e.args[0]), self.expr(e.args[1]))
+        if isinstance(e, ast.Subscript) and un(e.slice) == "-1" and isinstance(e.value, ast.Call) \
+                and isinstance(e.value.func, ast.Attribute) and e.value.func.attr == "split" \
+                and [un(a) for a in e.value.args] == ["':'"] and not e.value.keywords:
+            return "(.afterColon %s)" % self.expr(e.value.func.value)
+        if isinstance(e, ast.Subscript) and isinstance(e.slice, ast.Slice) and e.slice.upper is None \
+                and e.slice.step is None and isinstance(e.slice.lower, ast.Name):
+            return "(.dropVar %s %d)" % (self.expr(e.value), self.var(e.slice.lower.id))
         if isinstance(e, ast.Subscript):
             s = e.slice
             if isinstance(s, ast.Slice) and s.lower is None and s.step is None and un(s.upper) == "-1":
@@ -815,6 +879,10 @@ class PyStr:
                 if isinstance(s.value, ast.Constant) and isinstance(s.value.value, int) \
                         and not isinstance(s.value.value, bool) and s.value.value >= 0:
                     return "(.assignInt %d %d)" % (self.var(t.id, True), s.value.value)
+                if isinstance(s.value, ast.Call) and un(s.value.func) == "len" and len(s.value.args) == 1 \
+                        and not s.value.keywords:
+                    e = self.expr(s.value.args[0])
+                    return "(.assignLen %d %s)" % (self.var(t.id, True), e)
                 e = self.expr(s.value)
                 return "(.assign %d %s)" % (self.var(t.id, True), e)
             if isinstance(t, ast.Subscript) and un(t.value) == "metadata" and isinstance(t.slice, ast.Constant) \
@@ -942,12 +1010,44 @@ def read_py(traits_dir):
     out["traitDelegateName"] = ps.stmts(body_of(fn))
     # _remove_trait_delegate_listener
     out["removeListener"] = read_remove_listener(find_func(ht, "_remove_trait_delegate_listener", "HasTraits"))
-    # _init_trait_delegate_listener: normalised statements
+    # _init_trait_delegate_listener: a program
     fn = find_func(ht, "_init_trait_delegate_listener", "HasTraits")
     names, _, kw = params_of(fn)
     if names != ["self", "name", "kind", "pattern"] or kw:
         raise Shape("_init_trait_delegate_listener: parameters")
-    out["initListener"] = [un(s).replace("\n", " ; ") for s in body_of(fn)]
+    body = body_of(fn)
+    closures = [i for i, s_ in enumerate(body) if isinstance(s_, ast.FunctionDef)]
+    if len(closures) != 1 or len(body) != closures[0] + 3:
+        raise Shape("_init_trait_delegate_listener: expected <assignments>; def notify; on_trait_change; table store")
+    ci = closures[0]
+    ps = PyStr("_init_trait_delegate_listener", names[1:])
+    pre = ps.stmts(body[:ci])
+    cl = body[ci]
+    cnames, _, ckw = params_of(cl)
+    if cl.name != "notify" or [un(d_) for d_ in cl.decorator_list] != ["weak_arg(self)"] \
+            or cnames != ["self", "object", "notify_name", "old", "new"] or ckw or len(body_of(cl)) != 1:
+        raise Shape("_init_trait_delegate_listener: closure %s" % un(cl).split("\n")[0])
+    cs = body_of(cl)[0]
+    if not (isinstance(cs, ast.Expr) and isinstance(cs.value, ast.Call)
+            and un(cs.value.func) == "self.trait_property_changed" and len(cs.value.args) == 3
+            and [un(a) for a in cs.value.args[1:]] == ["old", "new"] and not cs.value.keywords):
+        raise Shape("_init_trait_delegate_listener: closure body %s" % un(cs))
+    notify_var = ps.var("notify_name", True)
+    notify_name = ps.expr(cs.value.args[0])
+    reg = body[ci + 1]
+    if not (isinstance(reg, ast.Expr) and isinstance(reg.value, ast.Call) and un(reg.value.func) == "self.on_trait_change"
+            and len(reg.value.args) == 2 and un(reg.value.args[0]) == "notify"
+            and [(k_.arg, un(k_.value)) for k_ in reg.value.keywords] == [("target", "self")]):
+        raise Shape("_init_trait_delegate_listener: registration %s" % un(reg))
+    reg_pat = ps.expr(reg.value.args[1])
+    st_ = body[ci + 2]
+    if not (isinstance(st_, ast.Assign) and len(st_.targets) == 1 and isinstance(st_.targets[0], ast.Subscript)
+            and un(st_.targets[0].value) == "self.__dict__.setdefault(ListenerTraits, {})" and un(st_.value) == "notify"):
+        raise Shape("_init_trait_delegate_listener: table store %s" % un(st_))
+    key = ps.expr(st_.targets[0].slice)
+    out["initListener"] = ("{ body := %s,\n    notifyVar := %d,\n    notifyName := %s,\n    registerPattern := %s,\n    storeKey := %s }"
+                           % (pre, notify_var, notify_name, reg_pat, key))
+    out["initListenerVars"] = ps.vars
     # who fills __listener_traits__ with the pattern
     sites = []
     for n in ast.walk(ht):
@@ -974,11 +1074,12 @@ def emit(traits_dir):
     L.append("def clampTo : Nat := %d" % c["clamp"][1])
     L.append("def traitDelegateArgs : List String := [%s]" % ", ".join(lean_str(a) for a in c["parse_args"]))
     L.append("")
-    for key, nm in (("get", "getattrDelegate"), ("set", "setattrDelegate")):
-        pre, loop, regs = c[key]
+    for key, nm in (("get", "getattrDelegate"), ("set", "setattrDelegate"), ("base", "hasTraitsTrait")):
+        pre, loop, regs = c[key][:3]
+        post = c[key][3] if len(c[key]) > 3 else ".skip"
         L.append("/-- registers: objects %s, names %s, traits %s -/" % (regs["O"], regs["S"], regs["T"]))
-        L.append("def %s : CFun := {\n  nO := %d,\n  nS := %d,\n  pre := %s,\n  loop := %s }"
-                 % (nm, len(regs["O"]), len(regs["S"]), pre, loop))
+        L.append("def %s : CFun := {\n  nO := %d,\n  nS := %d,\n  pre := %s,\n  loop := %s,\n  post := %s }"
+                 % (nm, len(regs["O"]), len(regs["S"]), pre, loop, post))
         L.append("")
     L.append("/-- `Delegate.__init__`: variables %s -/" % p["initDelegateVars"])
     L.append("def initDelegate : PStmt := %s" % p["initDelegate"])
@@ -988,7 +1089,8 @@ def emit(traits_dir):
     L.append("def delegatePattern : PStmt := %s" % p["delegatePattern"])
     L.append("def traitDelegateName : PStmt := %s" % p["traitDelegateName"])
     L.append("def removeListener : LStmt := %s" % p["removeListener"])
-    L.append("def initListener : List String := [\n  %s]" % ",\n  ".join(lean_str(a) for a in p["initListener"]))
+    L.append("/-- `_init_trait_delegate_listener`: variables %s -/" % p["initListenerVars"])
+    L.append("def initListener : InitListener :=\n  %s" % p["initListener"])
     L.append("def patternSites : List String := [%s]" % ", ".join(lean_str(a) for a in p["patternSites"]))
     L += ["", "end TraitsVerif.Generated.DelegSrc"]
     return "\n".join(L) + "\n"
